@@ -144,6 +144,8 @@ def gen_case(rng, tier):
              "init": rng.choice(["array", "array", "random"]),
              "yform": rng.choice(["list", "array"]),
              "um": rng.random() < 0.8, "uv": rng.random() < 0.5, "uw": rng.random() < 0.5}
+        if name in ("gmm_map_fit", "gmm_ml_fit"):
+            o["rejected_first"] = rng.random() < 0.25
         if name == "gmm_map_fit":
             # enrolment from a very short (or empty) utterance, and a raised occupancy threshold:
             # possibly no component gathers enough evidence to move
@@ -405,6 +407,15 @@ def _call(pool, o, rec, label):
                 g.weights = np.array(pool.ubm.weights)
             g.means = np.array(pool.ubm.means)
             g.variances = np.array(pool.ubm.variances)
+        if o.get("rejected_first") and X.shape[1] >= 2:
+            # a call with data of another feature dimension is refused; the caller catches the
+            # exception and trains the same machine
+            try:
+                g.fit(np.concatenate([np.asarray(X, float), np.asarray(X, float)[:, :1]], axis=1))
+                rec.probe("wrong_dimension_fit_accepted")
+            except Exception:
+                rec.probe("wrong_dimension_fit_refused_then_same_machine_trained")
+                rec.faults["F10_rejected_call"] = rec.faults.get("F10_rejected_call", 0) + 1
         res = under_sim(lambda: g.fit(dX(X))) if use_da else g.fit(X)
         return [np.array(res.means), np.array(res.variances), np.array(res.weights)], res
     if name in ("isv_fit", "jfa_fit", "isv_fit_array", "jfa_fit_array"):
